@@ -2,6 +2,7 @@ package mempool
 
 import (
 	"fmt"
+	"os"
 	"sort"
 	"sync"
 	"time"
@@ -38,7 +39,10 @@ func Explore(ctx *vrun.Ctx, u *Universe, coverage, withMining bool) (*Model, *tl
 	tlaText, cfgText := u.Module(mod, base, c, defs, cfgTail)
 	res, err := tlc.Run(tlc.Opts{SpecDir: ctx.SpecDir("mempool"), Module: mod, CfgText: cfgText,
 		Files: map[string][]byte{mod + ".tla": []byte(tlaText)}, Workers: 2, Timeout: 25 * time.Minute,
-		DumpGraph: true, Coverage: coverage, Scratch: ctx.Scratch, HeapGB: 4})
+		DumpGraph: true, Coverage: coverage, Scratch: keepScratch(ctx), HeapGB: 4, KeepDir: os.Getenv("VERIF_KEEPTLC") != ""})
+	if res != nil && os.Getenv("VERIF_KEEPTLC") != "" {
+		ctx.Logf("universe %s: TLC directory %s", u.Name, res.Dir)
+	}
 	if err != nil {
 		return nil, res, fmt.Errorf("universe %s: %w", u.Name, err)
 	}
@@ -64,6 +68,9 @@ func tail(s string, n int) string {
 // plus seed-generated ones.
 func universesFor(ctx *vrun.Ctx, mining bool) []*Universe {
 	var us []*Universe
+	if !mining {
+		us = append(us, EvictionBoundary()) // slowest TLC run first
+	}
 	want := map[string]bool{"rbf": true, "orphans": true, "reorg": true}
 	if mining {
 		want = map[string]bool{"reorg": true, "mining": true, "sigops": true}
@@ -224,4 +231,13 @@ func runBoth(ctx *vrun.Ctx, mining bool) error {
 	ctx.Assume("transactions are anyone-can-spend scripts; signature checking itself is covered by C06/C07")
 	ctx.Assume("blocks mined during a replay carry no witness transactions (their coinbase is fixed in advance); witness transactions are pooled and appear in templates")
 	return nil
+}
+
+// keepScratch: VERIF_KEEPTLC=<dir> keeps the generated modules and TLC output there (debugging).
+func keepScratch(ctx *vrun.Ctx) string {
+	if d := os.Getenv("VERIF_KEEPTLC"); d != "" {
+		os.MkdirAll(d, 0o755)
+		return d
+	}
+	return ctx.Scratch
 }
